@@ -72,7 +72,8 @@ stays_near!(near_airborne, false);
 stays_near!(near_surface, true);
 
 macro_rules! lat_exact {
-    ($name:ident, $surface:expr, $odd:expr) => {
+    ($name:ident, $surface:expr, $odd:expr) => { lat_exact!($name, $surface, $odd, -1000, 1000); };
+    ($name:ident, $surface:expr, $odd:expr, $zlo:expr, $zhi:expr) => {
         harness! {
             #[kani::unwind(60)]
             #[kani::stub(alloc::fmt::format, crate::stubs::fmt_stub)]
@@ -88,6 +89,8 @@ macro_rules! lat_exact {
                 // |lat| <= 90  <=>  |E| <= nz * 2^17 * 90 / span
                 let emax = if $surface { nz * P17 } else { nz * P17 / 4 };
                 vassume!(e >= -emax && e <= emax);
+                // restriction to latitude zones $zlo..=$zhi (zone = E div 2^17); -1000..1000 = no restriction
+                vassume!(e >= $zlo * P17 && e < ($zhi + 1) * P17);
                 let d_lat = span / nz as f64;
                 let truth = d_lat * (e as f64) / 131072.0;
                 vassume!(lr.is_finite() && absf(lr - truth) <= 0.475 * d_lat);
@@ -108,6 +111,7 @@ lat_exact!(lat_air_even, false, false);
 lat_exact!(lat_air_odd, false, true);
 lat_exact!(lat_surf_even, true, false);
 lat_exact!(lat_surf_odd, true, true);
+include!("gen/c05_lat.rs");
 
 macro_rules! lon_exact_ref {
     ($name:ident, $surface:expr, $odd:expr, $nl:expr) => {
